@@ -195,22 +195,26 @@ Lemma untaint_all_props : forall cs nodes fut nodes' e err,
   (forall x, n_cond (nodes' x) = n_cond (nodes x) /\ n_del (nodes' x) = n_del (nodes x) /\
              n_mark (nodes' x) = n_mark (nodes x) /\ n_stdel (nodes' x) = n_stdel (nodes x)) /\
   (forall x, n_taint (nodes' x) = true -> n_taint (nodes x) = true) /\
-  (fut = [] -> err = false /\ forall x, In x cs -> n_taint (nodes' x) = false).
+  (fut = [] -> err = false /\ forall x, In x cs -> obj_present (nodes x) = true -> n_taint (nodes' x) = false).
 Proof.
   induction cs as [|c t IH]; simpl; intros nodes fut nodes' e err H.
   - inversion H; subst. repeat split; auto. intros; contradiction.
-  - destruct (call_result (n_taint (nodes c)) (lookup fut c)) eqn:Ec.
-    + destruct (untaint_all (upd nodes c (set_taint (nodes c) false)) fut t) as [[n1 e1] er] eqn:E.
+  - destruct (call_result (removable (nodes c)) (lookup fut c)) eqn:Ec.
+    + destruct (untaint_all (upd nodes c (set_taint (nodes c) (n_taint (nodes c) && negb (removable (nodes c))))) fut t) as [[n1 e1] er] eqn:E.
       inversion H; subst; clear H. apply IH in E. destruct E as [D [F [T A]]].
-      split; [rewrite deletes_app, D; destruct (n_taint (nodes c)); reflexivity|].
+      split; [rewrite deletes_app, D; destruct (removable (nodes c)); reflexivity|].
       split; [intros x; destruct (F x) as [F1 [F2 [F3 F4]]]; rewrite F1, F2, F3, F4; unfold upd;
               destruct (x =? c) eqn:Ex; [apply Nat.eqb_eq in Ex; subst|]; auto|].
       split.
-      * intros x Hx. apply T in Hx. unfold upd in Hx. destruct (x =? c) eqn:Ex; [simpl in Hx; discriminate | assumption].
+      * intros x Hx. apply T in Hx. unfold upd in Hx. destruct (x =? c) eqn:Ex; [|assumption].
+        apply Nat.eqb_eq in Ex. subst. simpl in Hx. apply andb_true_iff in Hx. tauto.
       * intros Hf. destruct (A Hf) as [A1 A2]. split; [assumption|].
-        intros x [<-|Hx]; [|auto].
-        destruct (n_taint (nodes' c)) eqn:Et; [|reflexivity].
-        apply T in Et. rewrite upd_same in Et. simpl in Et. discriminate.
+        intros x [<-|Hx] Hp.
+        -- destruct (n_taint (nodes' c)) eqn:Et; [|reflexivity].
+           apply T in Et. rewrite upd_same in Et. simpl in Et. unfold removable in Et. rewrite Hp in Et.
+           destruct (n_taint (nodes c)); simpl in Et; discriminate.
+        -- apply A2; [assumption|]. unfold upd. destruct (x =? c) eqn:Ex; [|assumption].
+           apply Nat.eqb_eq in Ex. subst. exact Hp.
     + apply IH in H. destruct H as [D [F [T A]]].
       split; [assumption|]. split; [assumption|]. split; [assumption|].
       intros Hf. subst fut. simpl in Ec. discriminate.
